@@ -8,6 +8,14 @@ ObservedEmits(ob) ==
   LET e == ObjGet(Eff(ob), "emits") IN
   IF e.t = "arr" THEN {e.xs[i].s : i \in 1..Len(e.xs)} ELSE {"<not-an-array>"}
 
+SecondEmits(ob) ==
+  LET e == ObjGet(ob.rt.exports[2][2].eff.es, "emits") IN IF e.t = "arr" THEN {e.xs[i].s : i \in 1..Len(e.xs)} ELSE {"<no-emits>"}
+DualWhy(ob) ==
+  IF ob.abs.place # "dual_scope" THEN ""
+  ELSE IF Len(ob.rt.exports) < 2 \/ ob.rt.exports[2][2].t # "component" THEN "second-call-not-observed"
+  ELSE IF SecondEmits(ob) # EmitsOf(ob.abs.type, ob.abs.shadow) THEN "inner-scope-declaration-not-used-for-the-inner-call"
+  ELSE ""
+
 Why(ob, D) ==
   LET no == NoObservation(ob) IN
   IF no # "" THEN no
@@ -18,7 +26,7 @@ Why(ob, D) ==
   ELSE LET want == EmitsOf(ob.abs.type, Env(ob))  got == ObservedEmits(ob) IN
        IF want \ got # {} THEN "missing-event:" \o (CHOOSE e \in want \ got : TRUE)
        ELSE IF got \ want # {} THEN "extra-event:" \o (CHOOSE e \in got \ want : TRUE)
-       ELSE ""
+       ELSE DualWhy(ob)
 
 ListedDevs == {}
 Init == c \in 1..NObs /\ done = FALSE
